@@ -154,6 +154,108 @@ def case_effects(body, keys, case, defs=None):
     return out
 
 
+def _merge_entry(R, f, loop, names, cursors):
+    """state of the cursors when the merge loop is entered, decided on small models: the statements before the loop (scalar
+    assignments and branches on the arguments / first and last pixels) are evaluated for every pair of sorted frames with 1..3
+    pixels on a 3 x 2 grid (and for empty frames); the merge finds every common pixel only if it starts at or before the first
+    one in both frames with nhit == 0"""
+    import itertools
+    import networkx as nx
+    i1, j1, nnz1, i2, j2, nnz2 = names
+    cfg = f.cfg
+    heads = [n for n in cfg.find_nodes(lambda n: n.k == "join" and n.s is loop)]
+    R.shape(len(heads) == 1, "C14.R3", SP, f.name, "the CFG node of the merge loop's head")
+    head = heads[0]
+    body_ids = nx.descendants(cfg.g, head.id) & nx.ancestors(cfg.g, head.id)
+    before = (nx.ancestors(cfg.g, head.id) - body_ids - {head.id}) & cfg.reachable()
+    stores = []
+    for nid in sorted(before):
+        n = cfg.nodes[nid]
+        if n.k == "expr" and n.e is not None:
+            for x in ewalk(n.e):
+                if (x.k == "asg" or x.k == "incdec") and x.a[0].k == "var" and x.a[0].name in cursors:
+                    stores.append((n, x))
+    R.shape(len(stores) >= 3, "C14.R3", SP, f.name, "the initialisation of p1, p2 and nhit before the merge loop (found %d stores)" % len(stores))
+    plain = all(x.k == "asg" and x.op == "=" and x.a[1].k == "int" and x.a[1].val == 0 and not cfg.guards(n.id) for n, x in stores)
+    if plain:
+        R.inst("C14.R3", "%s:%s p1 = p2 = nhit = 0 unconditionally before the merge loop" % (SP, f.name))
+        return
+    pixels = [(r, c) for r in range(3) for c in range(2)]
+    frames = [[]] + [list(x) for n_ in (1, 2, 3) for x in itertools.combinations(pixels, n_)]
+    witness = None
+    nmodels = 0
+    try:
+        for fa in frames:
+            for fb in frames:
+                env = {i1: [p[0] for p in fa], j1: [p[1] for p in fa], nnz1: len(fa), i2: [p[0] for p in fb], j2: [p[1] for p in fb], nnz2: len(fb)}
+                nid = cfg.entry.id
+                steps = 0
+                left = False
+                while nid != head.id:
+                    steps += 1
+                    if steps > 500:
+                        raise crules.NotEvaluable("the code before the merge loop does not reach it in 500 steps")
+                    n = cfg.nodes[nid]
+                    succ = list(cfg.g.successors(nid))
+                    if n.k == "cond":
+                        v = bool(crules.ceval(n.e, env))
+                        succ = [s_ for s_ in succ if cfg.nodes[s_].k == "assume" and cfg.nodes[s_].pol == v]
+                    elif n.k == "expr" and n.e is not None:
+                        _exec(n.e, env)
+                    elif n.k == "return" or nid == cfg.exit.id:
+                        left = True
+                        break
+                    elif n.k not in ("entry", "assume", "join", "decl"):
+                        raise crules.NotEvaluable("statement kind %s before the merge loop" % n.k)
+                    if len(succ) != 1:
+                        raise crules.NotEvaluable("%d successors after %r" % (len(succ), n))
+                    nid = succ[0]
+                nmodels += 1
+                common = sorted(set(fa) & set(fb))
+                if left:
+                    if common:
+                        witness = (fa, fb, common[0], "the function returns before the merge")
+                        break
+                    continue
+                for cvar in cursors:
+                    if cvar not in env:
+                        raise crules.NotEvaluable("%s is not assigned before the merge loop" % cvar)
+                if common and (env[cursors[0]] > fa.index(common[0]) or env[cursors[1]] > fb.index(common[0]) or env[cursors[2]] != 0):
+                    witness = (fa, fb, common[0], "%s = %s, %s = %s, %s = %s at the loop head" % (cursors[0], env[cursors[0]], cursors[1], env[cursors[1]], cursors[2], env[cursors[2]]))
+                    break
+                if not common and env[cursors[2]] != 0:
+                    witness = (fa, fb, None, "%s = %s at the loop head" % (cursors[2], env[cursors[2]]))
+                    break
+            if witness:
+                break
+    except crules.NotEvaluable as ex:
+        R.shape(False, "C14.R3", SP, f.name, "the statements before the merge loop as assignments / branches on the arguments (%s)" % ex)
+    n0, x0 = [(n, x) for n, x in stores if not (x.k == "asg" and x.op == "=" and x.a[1].k == "int" and x.a[1].val == 0 and not cfg.guards(n.id))][0]
+    R.check(witness is None, "C14.R3", SP, n0.line, f.name, "'%s' before the merge loop: every common pixel of every pair of small sorted frames is still reached (%d models)" % (
+        estr_top(n0.e), nmodels),
+        "the merge does not start at the first pixels: for frame 1 = %s and frame 2 = %s (sorted (row, col) lists) %s, and the common pixel %s is never "
+        "reported" % (witness[0] if witness else "", witness[1] if witness else "", witness[3] if witness else "", witness[2] if witness else ""))
+
+
+def _exec(e, env):
+    """effect of an expression statement on the scalar environment (assignments, ++ / --); anything else is not evaluable"""
+    if e.k == "asg" and e.a[0].k == "var":
+        v = crules.ceval(e.a[1], env)
+        if e.op == "=":
+            env[e.a[0].name] = v
+        elif e.op in ("+=", "-="):
+            env[e.a[0].name] = env[e.a[0].name] + (v if e.op == "+=" else -v)
+        else:
+            raise crules.NotEvaluable(estr(e))
+        return
+    if e.k == "incdec" and e.a[0].k == "var":
+        env[e.a[0].name] = env[e.a[0].name] + (1 if e.op == "++" else -1)
+        return
+    if e.k == "cast":
+        return _exec(e.a[0], env)
+    raise crules.NotEvaluable("statement '%s'" % estr(e))
+
+
 def r3(R):
     R.rule("C14.R3", "merge kernels: loop while both frames have pixels; the frame with the smaller key advances; equal keys record one hit and "
                      "advance both; keys are compared directly (never through the sign of an unsigned difference); mask_to_coo rejects "
@@ -205,7 +307,11 @@ def r3(R):
                 R.check(not other, "C14.R3", SP, wl[0].line, "sparse_overlaps", "no other effect in the merge body (%s)" % other, "the merge body does something else: %s" % other)
     except NotEvaluable as ex:
         R.shape(False, "C14.R3", SP, "sparse_overlaps", "a merge body that branches only on the orderings of (i1[p1], i2[p2]) and (j1[p1], j2[p2]) - found %s" % ex)
-    # hit stores happen before the pointers move
+    # the merge starts at the first pixel of both frames with no hit recorded: every store to p1 / p2 / nhit that can reach the loop
+    # from the function entry is '= 0'; a conditional store of something else (a shortcut that skips the merge) is decided on small
+    # models: sorted frames of 1..3 pixels over a 3 x 2 grid - if the shortcut's condition holds for two frames that share a pixel,
+    # that pixel is lost
+    _merge_entry(R, f, wl[0], (i1, j1, nnz1, i2, j2, nnz2), ("p1", "p2", "nhit"))
     # -- coverlaps
     g = cfront.find_func(tus, "coverlaps", SP)
     wl = [s for s in swalk(g.body) if s.k == "while"]
